@@ -61,6 +61,12 @@ impl<const N: usize> Ex<N> {
         if let Some(f) = self.faulted {
             self.run_family = Some(f);
         }
+        if let Some((crate::elem::FaultKind::Drop, _)) = st.fault {
+            if !H.with(|h| h.borrow().fired) {
+                // k was beyond the last destructor call of the operation: must not fire
+                self.stats.probe(Probe::DropPanicNotFired);
+            }
+        }
         self.check_hook_violations(out.own);
         let mut all_items: [Vec<Item>; 2] = [Vec::new(), Vec::new()];
         for b in 0..2 {
